@@ -19,22 +19,42 @@ static inline _Bool weak_expired(Handle *h) { return weak_lock(h) == NULL; }
 
 /* ------------------------------------------------------------------ node-local invariant instances */
 /* forward instance at k: reads k, k->next, L->tail */
-#define I_FWD(L, k) ( \
-  (LIVE(k) ==> ((((k)->next == NULL) == ((L)->tail == (k))) && \
-                ((k)->next != NULL ==> (LIVE((k)->next) && (k)->next->previous == (k) && (k)->next->rank > (k)->rank)))) && \
-  (!LIVE(k) ==> ((k)->next != NULL ==> ((k)->next->rank > (k)->rank && (LIVE((k)->next) || (k)->next->remStamp > (k)->remStamp)))) )
+static inline _Bool i_fwd(const CL *L, const Node *k)
+{
+  const Node *x = k->next;
+  if (LIVE(k)) {
+    if ((x == NULL) != (L->tail == k)) return 0;
+    if (x != NULL) return LIVE(x) && x->previous == k && x->rank > k->rank;
+    return 1;
+  }
+  if (x != NULL) return x->rank > k->rank && (LIVE(x) || x->remStamp > k->remStamp);
+  return 1;
+}
 /* backward instance at k: reads k, k->previous, L->head */
-#define I_BWD(L, k) ( \
-  (LIVE(k) ==> ((((k)->previous == NULL) == ((L)->head == (k))) && \
-                ((k)->previous != NULL ==> (LIVE((k)->previous) && (k)->previous->next == (k) && (k)->previous->rank < (k)->rank)))) && \
-  (!LIVE(k) ==> ((k)->previous != NULL ==> ((k)->previous->rank < (k)->rank && (LIVE((k)->previous) || (k)->previous->remStamp > (k)->remStamp)))) )
-/* stamps: every stamp is in the past; a removed node was removed after it was added */
-#define I_STAMP(k) ((k)->addStamp <= g_clock && (LIVE(k) || ((k)->remStamp <= g_clock && (k)->remStamp > (k)->addStamp)))
-
+static inline _Bool i_bwd(const CL *L, const Node *k)
+{
+  const Node *x = k->previous;
+  if (LIVE(k)) {
+    if ((x == NULL) != (L->head == k)) return 0;
+    if (x != NULL) return LIVE(x) && x->next == k && x->rank < k->rank;
+    return 1;
+  }
+  if (x != NULL) return x->rank < k->rank && (LIVE(x) || x->remStamp > k->remStamp);
+  return 1;
+}
+static inline _Bool i_stamp(const Node *k)
+{
+  return k->addStamp <= g_clock && (LIVE(k) || (k->remStamp <= g_clock && k->remStamp > k->addStamp));
+}
+#define I_FWD(L, k) i_fwd(L, k)
+#define I_BWD(L, k) i_bwd(L, k)
+#define I_STAMP(k) i_stamp(k)
 /* ------------------------------------------------------------------ window helpers (DESIGN 3.1, rules 2, 3, 8) */
 #define FRESH_NODE(p)      __CPROVER_is_fresh(p, sizeof(Node))
 #define NULL_OR_FRESH(p)   ((p) == NULL || FRESH_NODE(p))
 #define PEQ(a, b)          __CPROVER_pointer_equals(a, b)
+/* pointer-valued postcondition (rule 3: a field havoc'd by a replaced contract needs pointer_equals to get a value set) */
+#define PTR_IS(x, v)       (((v) == NULL) ? ((x) == NULL) : PEQ(x, v))
 /* p is null, is one of up to three named window nodes, or is some other node */
 #define ALIAS3(p, a, b, c) ((p) == NULL || ((a) != NULL && PEQ(p, a)) || ((b) != NULL && PEQ(p, b)) || ((c) != NULL && PEQ(p, c)) || FRESH_NODE(p))
 
@@ -42,26 +62,231 @@ static inline _Bool weak_expired(Handle *h) { return weak_lock(h) == NULL; }
 #define FROZEN_IF_REMOVED(k, old_counter, old_next, old_prev, old_rem) \
   ((old_counter) == 0 ==> ((k)->counter == 0 && (k)->next == (old_next) && (k)->previous == (old_prev) && (k)->remStamp == (old_rem)))
 
+/* ------------------------------------------------------------------ the arbitrary other node gK
+ * forall-introduction over the unbounded heap (DESIGN 3.1): after an operation every invariant instance must hold
+ * again at an ARBITRARY node.  An instance can only be affected if it reads something the operation writes, i.e.
+ * if the node is a footprint node or one of its links points to a footprint node.  gK is therefore any node
+ * other than the window nodes a, b, c, d (possibly null); each of its links is null, points to a window node, or
+ * points elsewhere.  The far-side instances of the window nodes themselves (e.g. the backward instance of the
+ * predecessor p of a removed node) read nothing in the function's assigns clause -- p's own fields other than
+ * p->next, the node before p, and L->head, which is assignable only when the removed node WAS the head, i.e. when
+ * there is no p -- so they are preserved by the frame that DFCC checks; that step is part of the meta-argument.
+ * (DFCC allows one pointer predicate per pointer lvalue, so gK cannot be aliased to a window node whose links are
+ * already described.) */
+#define ALIAS4(p, a, b, c, d) ((p) == NULL || ((a) != NULL && PEQ(p, a)) || ((b) != NULL && PEQ(p, b)) || ((c) != NULL && PEQ(p, c)) || ((d) != NULL && PEQ(p, d)) || FRESH_NODE(p))
+#define K_REQ(L, a, b, c, d) (FRESH_NODE(gK) && ALIAS4(gK->next, a, b, c, d) && ALIAS4(gK->previous, a, b, c, d) && I_FWD(L, gK) && I_BWD(L, gK) && I_STAMP(gK))
+#define K_ENS(L) (I_FWD(L, gK) && I_BWD(L, gK) && I_STAMP(gK))
+#define CLOCK_OK          (g_clock < 0xffffffffffff0000ull)
+#define HELD(L)           ((L)->mutex.depth == 1)
+#define UNLOCKED(L)       ((L)->mutex.depth == 0)
+
 /* ================================================================== doFreeNode (callbacklist.h:386)
- * window: n = *node, p = n->previous, s = n->next, arbitrary other node gK (its links may point into the window)
- * pre : the mutex is held, n is a live node of this list, the invariant instances at n
- * post: exact link surgery; n marked removed and stamped, its own links kept (stale); instances again at p, s, gK */
+ * window: n = *node, p = n->previous, s = n->next, arbitrary other node gK
+ * pre : mutex held, n is a LIVE node of this list (instances at n)
+ * post: exact link surgery; n marked removed and stamped, its own links kept (stale); instances again at n, p, s, gK */
 #define CONTRACT_CL_doFreeNode \
   __CPROVER_requires(__CPROVER_is_fresh(self, sizeof(CL)) && __CPROVER_is_fresh(node, sizeof(Node *)) && FRESH_NODE(*node)) \
   __CPROVER_requires(NULL_OR_FRESH((*node)->previous) && NULL_OR_FRESH((*node)->next)) \
-  __CPROVER_requires(self->mutex.depth == 1) \
-  __CPROVER_requires(LIVE(*node) && I_FWD(self, *node) && I_BWD(self, *node)) \
-  __CPROVER_requires(I_STAMP(*node) && g_clock < 0xffffffffffff0000ull) \
-  __CPROVER_assigns((*node)->counter, (*node)->remStamp, g_clock, self->head, self->tail) \
+  __CPROVER_requires(K_REQ(self, *node, (*node)->previous, (*node)->next, (Node *)NULL)) \
+  __CPROVER_requires(HELD(self) && CLOCK_OK) \
+  __CPROVER_requires(LIVE(*node) && I_FWD(self, *node) && I_BWD(self, *node) && I_STAMP(*node)) \
+  __CPROVER_requires((*node)->previous != NULL ==> (I_FWD(self, (*node)->previous) && I_STAMP((*node)->previous))) \
+  __CPROVER_requires((*node)->next != NULL ==> (I_BWD(self, (*node)->next) && I_STAMP((*node)->next))) \
+  __CPROVER_assigns((*node)->counter, (*node)->remStamp, g_clock) \
+  __CPROVER_assigns(self->head == *node: self->head) \
+  __CPROVER_assigns(self->tail == *node: self->tail) \
   __CPROVER_assigns((*node)->next != NULL: (*node)->next->previous) \
   __CPROVER_assigns((*node)->previous != NULL: (*node)->previous->next) \
   __CPROVER_ensures(!LIVE(*node) && (*node)->remStamp == g_clock && g_clock == __CPROVER_old(g_clock) + 1) \
   __CPROVER_ensures((*node)->next == __CPROVER_old((*node)->next) && (*node)->previous == __CPROVER_old((*node)->previous)) \
-  __CPROVER_ensures((*node)->previous != NULL ==> (*node)->previous->next == (*node)->next) \
-  __CPROVER_ensures((*node)->next != NULL ==> (*node)->next->previous == (*node)->previous) \
-  __CPROVER_ensures(self->head == (__CPROVER_old(self->head) == *node ? (*node)->next : __CPROVER_old(self->head))) \
-  __CPROVER_ensures(self->tail == (__CPROVER_old(self->tail) == *node ? (*node)->previous : __CPROVER_old(self->tail))) \
-  __CPROVER_ensures(self->mutex.depth == 1)
+  __CPROVER_ensures((*node)->previous != NULL ==> PTR_IS((*node)->previous->next, (*node)->next)) \
+  __CPROVER_ensures((*node)->next != NULL ==> PTR_IS((*node)->next->previous, (*node)->previous)) \
+  __CPROVER_ensures(__CPROVER_old(self->head) == *node ? PTR_IS(self->head, (*node)->next) : self->head == __CPROVER_old(self->head)) \
+  __CPROVER_ensures(__CPROVER_old(self->tail) == *node ? PTR_IS(self->tail, (*node)->previous) : self->tail == __CPROVER_old(self->tail)) \
+  __CPROVER_ensures(HELD(self)) \
+  __CPROVER_ensures(I_FWD(self, *node) && I_BWD(self, *node) && I_STAMP(*node)) \
+  __CPROVER_ensures((*node)->previous != NULL ==> I_FWD(self, (*node)->previous)) \
+  __CPROVER_ensures((*node)->next != NULL ==> I_BWD(self, (*node)->next)) \
+  __CPROVER_ensures(K_ENS(self))
 
-/* field-write hook: every store to Node::counter goes through this (extract/units.py field_hooks) */
+/* field-write hook: every store to Node::counter goes through this (extract/units.py field_hooks);
+ * marking a node removed stamps it with the ghost clock */
 #define NODE_SET_counter(n, v) ((n)->counter = (v), ((n)->counter == 0 ? ((n)->remStamp = ++g_clock) : 0ull), (n)->counter)
+
+/* list header instance */
+static inline _Bool i_hdr(const CL *L)
+{
+  if ((L->head == NULL) != (L->tail == NULL)) return 0;
+  return 1;
+}
+#define I_HDR(L) i_hdr(L)
+#define NOWRAP(L) ((L)->currentCounter != 0xffffffffu)
+
+/* ================================================================== trusted environment: allocation
+ * std::make_shared<Node> = this allocation + the extracted Node constructor.  The fresh node receives the
+ * prophecy rank g_next_rank (constrained by the caller's precondition, renumbering lemma DESIGN 3.2) and the
+ * next ghost-clock value as its addStamp. */
+#define CONTRACT_Node_alloc \
+  __CPROVER_requires(CLOCK_OK) \
+  __CPROVER_assigns(g_clock) \
+  __CPROVER_ensures(FRESH_NODE(__CPROVER_return_value)) \
+  __CPROVER_ensures(g_clock == __CPROVER_old(g_clock) + 1) \
+  __CPROVER_ensures(__CPROVER_return_value->rank == g_next_rank && __CPROVER_return_value->addStamp == g_clock)
+
+/* ================================================================== getNextCounter (callbacklist.h:423)
+ * epoch-internal contract (no wrap at this call); the wrap-around case is C19's obligation set (-DOB_WRAP) */
+#ifndef OB_WRAP
+#define CONTRACT_CL_getNextCounter \
+  __CPROVER_requires(__CPROVER_is_fresh(self, sizeof(CL)) && NOWRAP(self)) \
+  __CPROVER_assigns(self->currentCounter) \
+  __CPROVER_ensures(__CPROVER_return_value == self->currentCounter && self->currentCounter == __CPROVER_old(self->currentCounter) + 1) \
+  __CPROVER_ensures(__CPROVER_return_value != 0)
+#endif
+
+/* ================================================================== remove (callbacklist.h:228)
+ * statement (C01/C02): returns true EXACTLY when it took a callback out of the list; through the handle of an
+ * already removed (but still referenced) callback it is inert: returns false and changes nothing. */
+#define RM_N (handle->p)
+#define CONTRACT_CL_remove \
+  __CPROVER_requires(__CPROVER_is_fresh(self, sizeof(CL)) && __CPROVER_is_fresh(handle, sizeof(Handle)) && NULL_OR_FRESH(RM_N)) \
+  __CPROVER_requires(RM_N != NULL ==> (NULL_OR_FRESH(RM_N->previous) && NULL_OR_FRESH(RM_N->next))) \
+  __CPROVER_requires(RM_N != NULL ==> K_REQ(self, RM_N, RM_N->previous, RM_N->next, (Node *)NULL)) \
+  __CPROVER_requires(UNLOCKED(self) && CLOCK_OK) \
+  __CPROVER_requires(g_b0 == (RM_N != NULL && LIVE(RM_N)))   /* snapshot: the handle refers to a callback that is in the list */ \
+  __CPROVER_requires(RM_N != NULL ==> (I_FWD(self, RM_N) && I_BWD(self, RM_N) && I_STAMP(RM_N))) \
+  __CPROVER_requires((RM_N != NULL && LIVE(RM_N) && RM_N->previous != NULL) ==> (I_FWD(self, RM_N->previous) && I_STAMP(RM_N->previous))) \
+  __CPROVER_requires((RM_N != NULL && LIVE(RM_N) && RM_N->next != NULL) ==> (I_BWD(self, RM_N->next) && I_STAMP(RM_N->next))) \
+  __CPROVER_assigns(self->mutex.depth) \
+  __CPROVER_assigns(RM_N != NULL && LIVE(RM_N): RM_N->counter, RM_N->remStamp, g_clock, self->head, self->tail) \
+  __CPROVER_assigns(RM_N != NULL && LIVE(RM_N) && RM_N->next != NULL: RM_N->next->previous) \
+  __CPROVER_assigns(RM_N != NULL && LIVE(RM_N) && RM_N->previous != NULL: RM_N->previous->next) \
+  __CPROVER_ensures(__CPROVER_return_value == g_b0) \
+  __CPROVER_ensures(UNLOCKED(self)) \
+  __CPROVER_ensures(RM_N != NULL ==> (!LIVE(RM_N) && RM_N->next == __CPROVER_old(RM_N->next) && RM_N->previous == __CPROVER_old(RM_N->previous))) \
+  __CPROVER_ensures(__CPROVER_return_value ==> (RM_N->remStamp == g_clock && g_clock == __CPROVER_old(g_clock) + 1)) \
+  __CPROVER_ensures((__CPROVER_return_value && RM_N->previous != NULL) ==> RM_N->previous->next == RM_N->next) \
+  __CPROVER_ensures((__CPROVER_return_value && RM_N->next != NULL) ==> RM_N->next->previous == RM_N->previous) \
+  __CPROVER_ensures(__CPROVER_return_value ==> self->head == (__CPROVER_old(self->head) == RM_N ? RM_N->next : __CPROVER_old(self->head))) \
+  __CPROVER_ensures(__CPROVER_return_value ==> self->tail == (__CPROVER_old(self->tail) == RM_N ? RM_N->previous : __CPROVER_old(self->tail))) \
+  __CPROVER_ensures(RM_N != NULL ==> (I_FWD(self, RM_N) && I_BWD(self, RM_N) && I_STAMP(RM_N))) \
+  __CPROVER_ensures((g_b0 && RM_N->previous != NULL) ==> I_FWD(self, RM_N->previous)) \
+  __CPROVER_ensures((g_b0 && RM_N->next != NULL) ==> I_BWD(self, RM_N->next)) \
+  __CPROVER_ensures(RM_N != NULL ==> K_ENS(self))
+
+/* ================================================================== append (callbacklist.h:171)
+ * statement: the new callback goes to the back.  window: t = old tail (null or a node), gK.
+ * prophecy : the fresh node's rank is above the old tail's (renumbering lemma). */
+#define AP_T (self->tail)
+#define CONTRACT_CL_append \
+  __CPROVER_requires(__CPROVER_is_fresh(self, sizeof(CL)) && __CPROVER_is_fresh(callback, sizeof(Callback)) && NULL_OR_FRESH(AP_T)) \
+  __CPROVER_requires(self->head == NULL || (AP_T != NULL && PEQ(self->head, AP_T)) || FRESH_NODE(self->head)) \
+  __CPROVER_requires(UNLOCKED(self) && CLOCK_OK && NOWRAP(self) && I_HDR(self)) \
+  __CPROVER_requires(AP_T != NULL ==> (LIVE(AP_T) && I_FWD(self, AP_T) && I_STAMP(AP_T) && g_next_rank > AP_T->rank)) \
+  __CPROVER_requires(K_REQ(self, AP_T, self->head, (Node *)NULL, (Node *)NULL)) \
+  __CPROVER_requires(g_u0 == (unsigned long long)(AP_T != NULL)) \
+  __CPROVER_assigns(self->mutex.depth, self->currentCounter, g_clock, self->tail) \
+  __CPROVER_assigns(AP_T == NULL: self->head) \
+  __CPROVER_assigns(AP_T != NULL: AP_T->next) \
+  __CPROVER_ensures(FRESH_NODE(__CPROVER_return_value.p))                           /* a new node, shared with nothing */ \
+  __CPROVER_ensures(UNLOCKED(self) && I_HDR(self)) \
+  __CPROVER_ensures(PEQ(self->tail, __CPROVER_return_value.p) && __CPROVER_return_value.p->next == NULL) \
+  __CPROVER_ensures(PTR_IS(__CPROVER_return_value.p->previous, __CPROVER_old(self->tail))) \
+  __CPROVER_ensures(g_u0 ? (PEQ(__CPROVER_return_value.p->previous->next, __CPROVER_return_value.p) && self->head == __CPROVER_old(self->head)) \
+                         : PEQ(self->head, __CPROVER_return_value.p)) \
+  __CPROVER_ensures(__CPROVER_return_value.p->callback.id == callback->id) \
+  __CPROVER_ensures(__CPROVER_return_value.p->counter == self->currentCounter && self->currentCounter == __CPROVER_old(self->currentCounter) + 1) \
+  __CPROVER_ensures(__CPROVER_return_value.p->rank == g_next_rank && __CPROVER_return_value.p->addStamp == g_clock && g_clock == __CPROVER_old(g_clock) + 1) \
+  __CPROVER_ensures(I_FWD(self, __CPROVER_return_value.p) && I_BWD(self, __CPROVER_return_value.p) && I_STAMP(__CPROVER_return_value.p)) \
+  __CPROVER_ensures(g_u0 ==> I_FWD(self, __CPROVER_return_value.p->previous)) \
+  __CPROVER_ensures(K_ENS(self))
+
+/* ================================================================== prepend (callbacklist.h:190): mirror image */
+#define PP_H (self->head)
+#define CONTRACT_CL_prepend \
+  __CPROVER_requires(__CPROVER_is_fresh(self, sizeof(CL)) && __CPROVER_is_fresh(callback, sizeof(Callback)) && NULL_OR_FRESH(PP_H)) \
+  __CPROVER_requires(self->tail == NULL || (PP_H != NULL && PEQ(self->tail, PP_H)) || FRESH_NODE(self->tail)) \
+  __CPROVER_requires(UNLOCKED(self) && CLOCK_OK && NOWRAP(self) && I_HDR(self)) \
+  __CPROVER_requires(PP_H != NULL ==> (LIVE(PP_H) && I_BWD(self, PP_H) && I_STAMP(PP_H) && g_next_rank < PP_H->rank)) \
+  __CPROVER_requires(K_REQ(self, PP_H, self->tail, (Node *)NULL, (Node *)NULL)) \
+  __CPROVER_requires(g_u0 == (unsigned long long)(PP_H != NULL)) \
+  __CPROVER_assigns(self->mutex.depth, self->currentCounter, g_clock, self->head) \
+  __CPROVER_assigns(PP_H == NULL: self->tail) \
+  __CPROVER_assigns(PP_H != NULL: PP_H->previous) \
+  __CPROVER_ensures(FRESH_NODE(__CPROVER_return_value.p)) \
+  __CPROVER_ensures(UNLOCKED(self) && I_HDR(self)) \
+  __CPROVER_ensures(PEQ(self->head, __CPROVER_return_value.p) && __CPROVER_return_value.p->previous == NULL) \
+  __CPROVER_ensures(PTR_IS(__CPROVER_return_value.p->next, __CPROVER_old(self->head))) \
+  __CPROVER_ensures(g_u0 ? (PEQ(__CPROVER_return_value.p->next->previous, __CPROVER_return_value.p) && self->tail == __CPROVER_old(self->tail)) \
+                         : PEQ(self->tail, __CPROVER_return_value.p)) \
+  __CPROVER_ensures(__CPROVER_return_value.p->callback.id == callback->id) \
+  __CPROVER_ensures(__CPROVER_return_value.p->counter == self->currentCounter && self->currentCounter == __CPROVER_old(self->currentCounter) + 1) \
+  __CPROVER_ensures(__CPROVER_return_value.p->rank == g_next_rank && __CPROVER_return_value.p->addStamp == g_clock && g_clock == __CPROVER_old(g_clock) + 1) \
+  __CPROVER_ensures(I_FWD(self, __CPROVER_return_value.p) && I_BWD(self, __CPROVER_return_value.p) && I_STAMP(__CPROVER_return_value.p)) \
+  __CPROVER_ensures(g_u0 ==> I_BWD(self, __CPROVER_return_value.p->next)) \
+  __CPROVER_ensures(K_ENS(self))
+
+/* ================================================================== doInsert (callbacklist.h:367)
+ * window: m = *node (new, unlinked), b = *beforeNode (LIVE node of this list), bp = b->previous, gK */
+#define DI_M (*node)
+#define DI_B (*beforeNode)
+#define CONTRACT_CL_doInsert \
+  __CPROVER_requires(__CPROVER_is_fresh(self, sizeof(CL)) && __CPROVER_is_fresh(node, sizeof(Node *)) && __CPROVER_is_fresh(beforeNode, sizeof(Node *))) \
+  __CPROVER_requires(FRESH_NODE(DI_M) && FRESH_NODE(DI_B) && NULL_OR_FRESH(DI_B->previous)) \
+  __CPROVER_requires(HELD(self) && DI_M->previous == NULL && DI_M->next == NULL && LIVE(DI_M) && I_STAMP(DI_M)) \
+  __CPROVER_requires(self->tail != DI_M && self->head != DI_M)      /* m is not linked yet */ \
+  __CPROVER_requires(LIVE(DI_B) && I_BWD(self, DI_B) && I_STAMP(DI_B) && DI_M->rank < DI_B->rank) \
+  __CPROVER_requires(DI_B->previous != NULL ==> (I_FWD(self, DI_B->previous) && DI_B->previous->rank < DI_M->rank)) \
+  __CPROVER_requires(K_REQ(self, DI_B, DI_B->previous, (Node *)NULL, (Node *)NULL)) \
+  __CPROVER_requires(g_u1 == (unsigned long long)(DI_B->previous != NULL)) \
+  __CPROVER_assigns(DI_M->previous, DI_M->next, DI_B->previous) \
+  __CPROVER_assigns(self->head == DI_B: self->head) \
+  __CPROVER_assigns(DI_B->previous != NULL: DI_B->previous->next) \
+  __CPROVER_ensures(PEQ(DI_M->next, DI_B) && PEQ(DI_B->previous, DI_M) && PTR_IS(DI_M->previous, __CPROVER_old(DI_B->previous))) \
+  __CPROVER_ensures(g_u1 ? (PEQ(DI_M->previous->next, DI_M) && self->head == __CPROVER_old(self->head)) : PEQ(self->head, DI_M)) \
+  __CPROVER_ensures(HELD(self) && I_FWD(self, DI_M) && I_BWD(self, DI_M) && I_BWD(self, DI_B)) \
+  __CPROVER_ensures(g_u1 ==> I_FWD(self, DI_M->previous)) \
+  __CPROVER_ensures(K_ENS(self))
+
+/* ================================================================== insert (callbacklist.h:209)
+ * statement: immediately before the referenced callback, or at the back when that callback is no longer in the
+ * list (handle empty, expired, or referring to a removed but still referenced callback).
+ * window: b = before->p, bp = b->previous, t = tail (null, b, or another node), gK */
+#define IN_B (before->p)
+#define IN_LIVE (IN_B != NULL && LIVE(IN_B))
+#define CONTRACT_CL_insert \
+  __CPROVER_requires(__CPROVER_is_fresh(self, sizeof(CL)) && __CPROVER_is_fresh(callback, sizeof(Callback)) && __CPROVER_is_fresh(before, sizeof(Handle))) \
+  __CPROVER_requires(NULL_OR_FRESH(IN_B) && (IN_B != NULL ==> NULL_OR_FRESH(IN_B->previous))) \
+  __CPROVER_requires(self->tail == NULL || (IN_B != NULL && PEQ(self->tail, IN_B)) || FRESH_NODE(self->tail)) \
+  __CPROVER_requires(self->head == NULL || (IN_B != NULL && PEQ(self->head, IN_B)) || (IN_B != NULL && IN_B->previous != NULL && PEQ(self->head, IN_B->previous)) || PEQ(self->head, self->tail) || FRESH_NODE(self->head)) \
+  __CPROVER_requires(UNLOCKED(self) && CLOCK_OK && NOWRAP(self) && I_HDR(self)) \
+  __CPROVER_requires(g_b0 == IN_LIVE) \
+  __CPROVER_requires(IN_B != NULL ==> (I_BWD(self, IN_B) && I_STAMP(IN_B))) \
+  __CPROVER_requires((IN_LIVE && IN_B->previous != NULL) ==> (I_FWD(self, IN_B->previous) && I_STAMP(IN_B->previous))) \
+  __CPROVER_requires(self->tail != NULL ==> (LIVE(self->tail) && I_FWD(self, self->tail) && I_STAMP(self->tail))) \
+  __CPROVER_requires(IN_LIVE ? (g_next_rank < IN_B->rank && (IN_B->previous != NULL ==> IN_B->previous->rank < g_next_rank)) \
+                             : (self->tail != NULL ==> g_next_rank > self->tail->rank)) \
+  __CPROVER_requires(K_REQ(self, self->tail, IN_B, (IN_B != NULL ? IN_B->previous : (Node *)NULL), self->head)) \
+  __CPROVER_requires(g_u0 == (unsigned long long)(self->tail != NULL) && g_u1 == (unsigned long long)(IN_LIVE && IN_B->previous != NULL)) \
+  __CPROVER_assigns(self->mutex.depth, self->currentCounter, g_clock, self->head, self->tail) \
+  __CPROVER_assigns(IN_LIVE: IN_B->previous) \
+  __CPROVER_assigns(IN_LIVE && IN_B->previous != NULL: IN_B->previous->next) \
+  __CPROVER_assigns(!IN_LIVE && self->tail != NULL: self->tail->next) \
+  __CPROVER_ensures(FRESH_NODE(__CPROVER_return_value.p)) \
+  __CPROVER_ensures(UNLOCKED(self) && I_HDR(self)) \
+  __CPROVER_ensures(__CPROVER_return_value.p->callback.id == callback->id && LIVE(__CPROVER_return_value.p)) \
+  __CPROVER_ensures(__CPROVER_return_value.p->rank == g_next_rank) \
+  __CPROVER_ensures(g_b0 ==> (__CPROVER_return_value.p->next == IN_B && IN_B->previous == __CPROVER_return_value.p)) \
+  __CPROVER_ensures(g_b0 ==> (g_u1 ? (__CPROVER_return_value.p->previous->next == __CPROVER_return_value.p && self->head == __CPROVER_old(self->head)) \
+                                   : (__CPROVER_return_value.p->previous == NULL && self->head == __CPROVER_return_value.p))) \
+  __CPROVER_ensures(g_b0 ==> self->tail == __CPROVER_old(self->tail)) \
+  __CPROVER_ensures(!g_b0 ==> (self->tail == __CPROVER_return_value.p && __CPROVER_return_value.p->next == NULL && __CPROVER_return_value.p->previous == __CPROVER_old(self->tail))) \
+  __CPROVER_ensures(!g_b0 ==> (g_u0 ? (__CPROVER_return_value.p->previous->next == __CPROVER_return_value.p && self->head == __CPROVER_old(self->head)) : self->head == __CPROVER_return_value.p)) \
+  __CPROVER_ensures(I_FWD(self, __CPROVER_return_value.p) && I_BWD(self, __CPROVER_return_value.p) && I_STAMP(__CPROVER_return_value.p)) \
+  __CPROVER_ensures(IN_B != NULL ==> I_BWD(self, IN_B)) \
+  __CPROVER_ensures(K_ENS(self))
+
+/* ================================================================== empty (callbacklist.h:158) */
+#define CONTRACT_CL_empty \
+  __CPROVER_requires(__CPROVER_is_fresh(self, sizeof(CL))) \
+  __CPROVER_assigns() \
+  __CPROVER_ensures(__CPROVER_return_value == (self->head == NULL))
